@@ -184,6 +184,9 @@ struct Exec {
     abort: bool,
     points_seen: usize,
     points_taken: usize,
+    /// evaluated at every scheduling step (a step boundary is a quiescent point for synchronous code)
+    invariant: Option<std::rc::Rc<dyn Fn() -> Vec<String>>>,
+    invariant_violations: Vec<String>,
 }
 
 thread_local! {
@@ -201,6 +204,18 @@ fn active() -> bool {
 
 fn me() -> usize {
     usize::from(shuttle::current::me())
+}
+
+thread_local! {
+    static IN_SCHEDULER: std::cell::Cell<bool> = const { std::cell::Cell::new(false) };
+}
+
+fn shuttle_me_or_none() -> usize {
+    if IN_SCHEDULER.with(|c| c.get()) {
+        usize::MAX
+    } else {
+        me()
+    }
 }
 
 const PANIC_LIVENESS: &str = "vsched-liveness";
@@ -534,6 +549,24 @@ impl Scheduler for OneShot {
     }
     fn next_task(&mut self, runnable: &[&Task], current: Option<TaskId>, _y: bool) -> Option<TaskId> {
         let ids: Vec<usize> = runnable.iter().map(|t| usize::from(t.id())).collect();
+        IN_SCHEDULER.with(|c| c.set(true));
+        struct Reset;
+        impl Drop for Reset {
+            fn drop(&mut self) {
+                IN_SCHEDULER.with(|c| c.set(false));
+            }
+        }
+        let _reset = Reset;
+        // the harness invariant is evaluated outside the borrow of the execution state
+        let inv = with_exec(|e| if e.final_phase || e.abort || !e.invariant_violations.is_empty() { None } else { e.invariant.clone() }).flatten();
+        if let Some(inv) = inv {
+            let v = inv();
+            if !v.is_empty() {
+                let step = with_exec(|e| e.steps).unwrap_or(0);
+                log(format!("INVARIANT VIOLATED at step {step}: {v:?}"));
+                with_exec(|e| e.invariant_violations = v);
+            }
+        }
         let r = with_exec(|e| {
             if e.abort {
                 return Err(());
@@ -747,6 +780,9 @@ fn sched_point(kind: PointKind, label: &'static str) {
 }
 
 fn sched_point_op(kind: PointKind, label: &'static str, obj: usize, class: u8) {
+    if IN_SCHEDULER.with(|c| c.get()) {
+        return; // observation code run by the scheduler itself (invariants)
+    }
     let take = with_exec(|e| {
         if !e.active || e.final_phase {
             return false;
@@ -949,7 +985,7 @@ pub fn ret_stamp() -> u64 {
 pub fn log(text: impl Into<String>) -> u64 {
     let text = text.into();
     let who = if with_exec(|e| e.active).unwrap_or(false) && !std::thread::panicking() {
-        me()
+        shuttle_me_or_none()
     } else {
         usize::MAX
     };
@@ -962,6 +998,12 @@ pub fn log(text: impl Into<String>) -> u64 {
         lc
     })
     .unwrap_or(0)
+}
+
+/// Install an invariant that is evaluated at every scheduling step of this execution. The closure
+/// must only observe (no ractor call that can block, no scheduling point).
+pub fn set_invariant(f: impl Fn() -> Vec<String> + 'static) {
+    with_exec(|e| e.invariant = Some(std::rc::Rc::new(f)));
 }
 
 /// An explored environment answer (must be listed in `ExecCfg::choose_labels`)
@@ -1142,6 +1184,7 @@ pub struct ExecResult {
     pub virtual_ns: u64,
     pub points_seen: usize,
     pub points_taken: usize,
+    pub invariant_violations: Vec<String>,
 }
 
 static INIT: std::sync::Once = std::sync::Once::new();
@@ -1240,6 +1283,8 @@ fn setup_exec(req: Req) {
             abort: false,
             points_seen: 0,
             points_taken: 0,
+            invariant: None,
+            invariant_violations: Vec::new(),
         })
     });
 }
@@ -1271,6 +1316,7 @@ fn take_result(panic: Option<Box<dyn std::any::Any + Send>>) -> Option<ExecResul
         virtual_ns: e.now,
         points_seen: e.points_seen,
         points_taken: e.points_taken,
+        invariant_violations: e.invariant_violations,
     };
     CUR_BODY.with(|b| *b.borrow_mut() = None);
     if let Some(p) = panic {
